@@ -385,6 +385,8 @@ def _same_stmt(a: ast.AST, b: Optional[ast.AST]) -> bool:
 
 
 def run(ctx: Ctx) -> None:
+    if getattr(ctx, "_depth", 0) >= 2:
+        return  # alias of an alias: not followed (breaks import cycles between rule modules)
     _run(ctx)
     if isinstance(ctx, Alias):
         return
@@ -393,6 +395,9 @@ def run(ctx: Ctx) -> None:
     from . import c15
 
     c15.run(Alias(ctx, "C16.R5", "graceful shutdown has the same meaning on both workers: trio bounds the connection handlers with now + graceful_timeout (an absolute deadline), asyncio with wait_for(graceful_timeout) (C15.R2/R1)", only={"C15.R2"}))
+    from . import c14
+
+    c14.run(Alias(ctx, "C16.R6", "both workers take the per-connection copy of the lifespan state after lifespan startup has completed (C14.R1/R5)", only={"C14.R1", "C14.R5"}))
     c05.run(Alias(ctx, "C16.R4", "an application failure is contained the same way by both workers: logged, answered through send(None), never re-raised into the connection's task group - including failures wrapped in an exception group on trio (C05.R1)", only={"C05.R1"}))
 
 
